@@ -65,7 +65,7 @@ func TestContractAcrossControlPlaneEvents(t *testing.T) {
 	}
 	defer n.Close()
 	rng := run.Rand("dhcp-renewals")
-	for round := 0; round < run.Pick(10, 150); round++ {
+	for round := 0; round < run.Pick(30, 150); round++ {
 		synctest.Test(t, func(t *testing.T) {
 			for _, name := range []string{"qos_egress", "qos_ingress"} {
 				m := k.Coll.Maps[name]
